@@ -135,6 +135,12 @@ class C14(PropBase):
                         if want:
                             filled += 1
                         exp = want.rjust(w) if al == "r" else want.ljust(w)
+                        # "blank when unknown": the source mark that follows a value (altitude, selected altitude, vertical rate,
+                        # track, heading) belongs to it - no mark without a value (SQWK is followed by the ACAS mark, a parameter of its own)
+                        if want == "" and n in ("ALT B", "ALT S", "VRATE", "TRK", "HDG") and t[pos + w:pos + w + 1] not in ("", " "):
+                            self.fail(rep, f"column {n} of aircraft {a:06X} is unknown but a source mark {t[pos + w:pos + w + 1]!r} is printed after it (-i {groups!r})",
+                                      {"ops": ops, "row_text": t, "header": header, "column": n, "row_state": row})
+                            return
                         if got != exp:
                             self.fail(rep, f"column {n} of aircraft {a:06X} shows {got!r}, the row state says {exp!r} (-i {groups!r})",
                                       {"ops": ops, "row_text": t, "header": header, "column": n, "expected": exp, "row_state": row})
